@@ -256,6 +256,7 @@ pub struct Gen<'a> {
     block_counter: usize,
     set_counter: usize,
     stmt_count: usize,
+    dump_count: usize,
 }
 
 fn escape_str_lit(s: &str) -> String {
@@ -286,6 +287,7 @@ impl<'a> Gen<'a> {
             block_counter: 0,
             set_counter: 0,
             stmt_count: 0,
+            dump_count: 0,
         }
     }
 
@@ -456,7 +458,7 @@ impl<'a> Gen<'a> {
                     if self.rng.chance(1, 3) {
                         // bounds and step taken from the context (128-bit extremes included)
                         let (x, y, z) = (self.slice_operand(env), self.slice_operand(env), self.slice_operand(env));
-                        format!("{}[{}:{}:{}]", self.expr_p(env, Kind::Str, d), x, y, z)
+                        slice_form(&self.expr_p(env, Kind::Str, d), &x, &y, &z)
                     } else {
                         format!("{}[{}:{}]", self.expr_p(env, Kind::Str, d), a, b)
                     }
@@ -555,7 +557,7 @@ impl<'a> Gen<'a> {
                 8 => {
                     if self.rng.chance(1, 3) {
                         let (x, y, z) = (self.slice_operand(env), self.slice_operand(env), self.slice_operand(env));
-                        format!("{}[{}:{}:{}]", self.expr_p(env, want, d), x, y, z)
+                        slice_form(&self.expr_p(env, want, d), &x, &y, &z)
                     } else {
                         format!("{}[::{}]", self.expr_p(env, want, d), self.rng.pick(&["-1", "2", "1", "-2"]))
                     }
@@ -594,16 +596,63 @@ impl<'a> Gen<'a> {
                 _ => self.atom(env, want),
             },
             Kind::Bytes | Kind::NoneK => self.atom(env, want),
+            Kind::Any if self.rng.chance(1, 6) => self.odd_builtin(env),
             Kind::Any => {
                 let k = self.rng.pick(&[Kind::Str, Kind::Str, Kind::Int, Kind::Float, Kind::Bool, Kind::ArrInt, Kind::ArrAny, Kind::Map, Kind::NoneK, Kind::Bytes, Kind::User, Kind::ArrUser]);
                 if k == Kind::Any {
                     self.atom(env, Kind::Any)
-                } else if self.rng.chance(1, 12) && env.ctx_visible {
+                } else if self.rng.chance(1, 12) && env.ctx_visible && env.mult == 1 && self.dump_count < 2 {
+                    // The context dump contains every assigned variable: captured into a `set`
+                    // inside a loop it doubles per iteration (2^34 bytes for a 34-character loop
+                    // — a generator hazard met in practice, not an engine defect). Outside loops,
+                    // at most twice per template.
+                    self.dump_count += 1;
                     "__tera_context".to_string()
                 } else {
                     self.expr(env, k, d)
                 }
             }
+        }
+    }
+
+    /// A built-in filter / test / function with odd but type-correct arguments (extremes, zero,
+    /// negative, empty and multi-byte strings). At most one argument can fail to *evaluate*.
+    fn odd_builtin(&mut self, env: &Env) -> String {
+        let int = |g: &mut Self| -> String {
+            let pool = ["0", "1", "2", "8", "16", "36", "37", "255", "1000", "100000", "n_int", "n_big", "n_edge", "n_small", "(0 - 1)", "(0 - 40)"];
+            let v = g.rng.pick(&pool);
+            if !env.ctx_visible && v.starts_with("n_") {
+                "3".to_string()
+            } else {
+                v.to_string()
+            }
+        };
+        let st = |g: &mut Self| -> String {
+            let pool = ["\"\"", "\"\u{e9}\"", "\"\u{1F389}\"", "\" \"", "\"a\u{300}\"", "\"a\u{e9}\"", "\"1\u{20ac}0\"", "\"f\u{1F600}\"", "\"\u{e9}\u{1F389}x\u{e9}\"", "s_uni", "s_empty", "s_html", "\"ab\""];
+            let v = g.rng.pick(&pool);
+            if !env.ctx_visible && v.starts_with("s_") {
+                "\"\u{e9}t\u{e9}\"".to_string()
+            } else {
+                v.to_string()
+            }
+        };
+        match self.rng.below(16) {
+            0 => format!("{} | truncate(length={}, end={})", st(self), int(self), st(self)),
+            1 => format!("{} | indent(width={}, first=true, blank=true)", st(self), int(self)),
+            2 => format!("{} | round(precision={}, method={})", self.atom_p(env, Kind::Float), int(self), self.rng.pick(&["\"common\"", "\"ceil\"", "\"floor\"", "\"nope\""])),
+            3 => format!("{} | int(base={})", st(self), int(self)),
+            4 => format!("{} | int(base={})", self.rng.pick(&["\"ff\"", "\"-12\"", "\"0x1f\"", "\"zz\"", "\"1e3\"", "\" 7 \"", "\"99999999999999999999999999999999999999999\""]), int(self)),
+            5 => format!("{} | split(pat={}) | length", st(self), st(self)),
+            6 => format!("{} | replace(from={}, to={})", st(self), st(self), st(self)),
+            7 => format!("{} | nth(n={})", self.atom_p(env, Kind::ArrAny), int(self)),
+            8 => format!("range(start={}, end={}, step_by={}) | length", int(self), int(self), int(self)),
+            9 => format!("{} | trim(pat={})", st(self), st(self)),
+            10 => format!("{} is divisible_by(divisor={})", int(self), int(self)),
+            11 => format!("{} is {}(pat={})", st(self), self.rng.pick(&["starting_with", "ending_with", "containing"]), st(self)),
+            12 => format!("{} | pluralize(singular={}, plural={})", int(self), st(self), st(self)),
+            13 => format!("{} | {} | {}", st(self), self.rng.pick(&["title", "capitalize", "wordcount", "reverse", "length", "upper", "escape_xml", "newlines_to_br"]), self.rng.pick(&["str", "length", "safe", "upper"])),
+            14 => format!("{} | abs", int(self)),
+            _ => format!("{} | float | round(precision={})", st(self), int(self)),
         }
     }
 
@@ -1005,7 +1054,8 @@ impl<'a> Gen<'a> {
         let mut s = self.tag(&format!("{} {}{}", kw, name, filters));
         s.push_str(&self.body(&inner));
         s.push_str(&self.tag("endset"));
-        if self.rng.chance(2, 3) {
+        // (printing a captured loop output inside another heavy loop multiplies sizes)
+        if self.rng.chance(2, 3) && env.mult <= 8 {
             s.push_str(&self.var(&format!("{}{}", name, self.rng.pick(&["", " | safe", " | length", " | upper"]))));
         }
         s
@@ -1259,6 +1309,7 @@ impl<'a> Gen<'a> {
         self.cur_blocks.clear();
         self.cur_cost = 1;
         self.stmt_count = 0;
+        self.dump_count = 0;
         let extends = if i > 0 && self.rng.below(1000) < self.cfg.inheritance {
             // parents with at least one block are more interesting
             let with_blocks: Vec<usize> = (0..i).filter(|j| !self.world.info[*j].chain_blocks.is_empty()).collect();
@@ -1427,15 +1478,27 @@ impl<'a> Gen<'a> {
         self.cur_blocks.clear();
         self.cur_cost = 1;
         self.stmt_count = 0;
+        self.dump_count = 0;
         // a throwaway info entry so that include/callable see every template
         self.world.info.push(TplInfo { name: "__tera_one_off".into(), ..Default::default() });
         let env = Env { vars: vec![], ctx_visible: true, in_loop: false, can_break: false, blocks_allowed: false, cur_block: None, mult: 1, depth: 0, tpl: i, comp: None };
         let mut src = String::new();
+        // a component defined by the one-off source itself (template-local lookup at render time)
+        let comps_before = self.world.comps.len();
+        if self.rng.chance(1, 3) {
+            let lname = format!("Loc{}", self.rng.below(100));
+            src.push_str(&self.gen_component(i, &lname));
+            let c = self.world.comps[comps_before].clone();
+            let args = self.comp_args(&env, &c, 1);
+            src.push_str(&self.var(&format!("<{} {}/>", lname, args)));
+        }
         let n = self.rng.range(1, self.cfg.stmts_per_body.max(1) + 1);
         for _ in 0..n {
             src.push_str(&self.stmt(&env));
         }
         self.world.info.pop();
+        // the local component belongs to this source only
+        self.world.comps.truncate(comps_before);
         src
     }
 
@@ -1499,6 +1562,19 @@ impl<'a> Gen<'a> {
         self.world.templates.extend(saved_tpls);
         self.world.comps = saved_comps;
         src
+    }
+}
+
+/// `base[x:y:z]`; an omitted step drops its colon (a trailing `:` is a syntax error)
+fn slice_form(base: &str, x: &str, y: &str, z: &str) -> String {
+    if z.is_empty() {
+        if x.is_empty() && y.is_empty() {
+            format!("{}[1:]", base)
+        } else {
+            format!("{}[{}:{}]", base, x, y)
+        }
+    } else {
+        format!("{}[{}:{}:{}]", base, x, y, z)
     }
 }
 
